@@ -227,9 +227,14 @@ def new_version(data, allow_custom=None, **kwargs):
 
             sco_locked_props = cls._id_contributing_properties
 
+    # (A "custom_properties" argument is another way to name properties.)
+    requested_props = set(kwargs)
+    if isinstance(kwargs.get("custom_properties"), dict):
+        requested_props.update(kwargs["custom_properties"])
+
     unchangable_properties = set()
     for prop in itertools.chain(STIX_UNMOD_PROPERTIES, sco_locked_props):
-        if prop in kwargs:
+        if prop in requested_props:
             unchangable_properties.add(prop)
     if unchangable_properties:
         raise UnmodifiablePropertyError(unchangable_properties)
